@@ -1,6 +1,6 @@
 (* C15 — renaming is harmless and emitted names are hygienic: the name generator.  Property theorems only. *)
 From Coq Require Import List NArith Bool String Ascii.
-From RV Require Import Wire NameGen NameGenProofs GenNames.
+From RV Require Import Wire NameGen NameGenProofs GenNames Scopes ScopesProofs.
 Import ListNotations.
 Local Open Scope string_scope.
 
@@ -41,6 +41,29 @@ Proof.
   destruct (assign_locals_spec locals all used [] res H id n Hin) as [[]|Hn]. exact Hn.
 Qed.
 
+(* every use refers to the entity it referred to in the source: the path the exporters write for the symbol `leaf` of
+   namespace t (`emit`: the namespaces from the root, the name, and a leading `::` where a declaration between the use
+   site and the root, or a local / member / method, has the path's first name) is resolved by the front end's lookup
+   to that symbol - from every namespace u, under every stack of local frames *)
+Theorem C15_emitted_path_names_its_symbol :
+  forall (is_ns : list string -> bool) (has : list string -> string -> bool) (inner : string -> bool)
+         (frames : list (string -> bool)) (u t : list string) (leaf : string),
+    ns_ok is_ns t = true -> has t leaf = true ->
+    Forall (fun f : string -> bool => forall n, f n = true -> inner n = true) frames ->
+    resolve is_ns has frames u (emit is_ns has inner u t leaf) = Some (Declared t).
+Proof. exact emitted_path_resolves. Qed.
+
+(* non-vacuity: root f used from namespace A::B where A declares its own f needs the anchor; the path without it is
+   looked up as A::f (what the seeded change `is_hidden_from_root` looking at the innermost namespace only emits) *)
+Example C15_path_example :
+  let is_ns := fun p : list string => match p with ["A"] | ["B"; "A"] => true | _ => false end in
+  let has := fun (p : list string) (n : string) => match p with [] | ["A"] => String.eqb n "f" | _ => false end in
+  let inner := fun _ : string => false in
+  p_abs (emit is_ns has inner ["B"; "A"] [] "f") = true /\
+  resolve is_ns has [] ["B"; "A"] (emit is_ns has inner ["B"; "A"] [] "f") = Some (Declared []) /\
+  resolve is_ns has [] ["B"; "A"] (emit_relative [] "f") = Some (Declared ["A"]).
+Proof. vm_compute. repeat split. Qed.
+
 (* ---- non-vacuity: overloads f,f next to a user symbol f_0, and a reserved name ---- *)
 Example C15_example :
   assign_scope ["float4"; "abs"]
@@ -52,3 +75,4 @@ Print Assumptions C15_reserved_lists_well_formed.
 Print Assumptions C15_build_total.
 Print Assumptions C15_scope_hygiene.
 Print Assumptions C15_locals_avoid_reserved_and_generated.
+Print Assumptions C15_emitted_path_names_its_symbol.
